@@ -159,7 +159,9 @@ def closeStream (st : St) : St × List Out :=
 def maybeRecycle (st0 : St) : St × List Out :=
   let st := (closeStream st0).1
   let o1 := (closeStream st0).2
-  if !st.terminated && st.lib.server == .done && st.lib.client == .done && !st.wsMode then
+  -- `not self.closed and not terminated and our_state is DONE and their_state is DONE` (a response completed after the
+  -- connection was lost does not recycle it); `our_state` of an H11WSConnection is `None`
+  if !st.closed && !st.terminated && st.lib.server == .done && st.lib.client == .done && !st.wsMode then
     match H11M.startNextCycle st.lib with
     | some lib' =>
       ({ st with lib := lib', canRead := true, cycles := st.cycles + 1, pc := if st.pc == .parked then .inLoop else st.pc },
@@ -222,12 +224,20 @@ def appSendHttp (cfg : Cfg) (st : St) (i : Nat) (m : Option Http.Msg) : St × Li
     if raised then (st2.setObj i (.http s), outs, some .exception) else (st2, outs, err)
   | _ => (st, [], none)
 
+/-- the stream event whose protocol-level send raised (the first one), if any -/
+def firstRaisedWs (cfg : Cfg) : St → List Ws.Ev → Option Ws.Ev
+  | _, [] => none
+  | st, e :: es => if (wsStreamSend cfg st e).2.2 then some e else firstRaisedWs cfg (wsStreamSend cfg st e).1 es
+
 def appSendWs (cfg : Cfg) (token : Bytes → Bytes) (ext : Option Bytes) (st : St) (i : Nat) (m : Option Ws.Msg) : St × List Out × Option PyErr :=
   match st.objs[i]? with
   | some (.ws s) =>
     let (s', evs, err) := Ws.appSend token ext s m
     let (st2, outs, raised) := runWsEvs cfg (st.setObj i (.ws s')) evs
-    if raised then (st2.setObj i (.ws s), outs, some .exception) else (st2, outs, err)
+    -- a protocol-level send that raised leaves the stream as it stood at that send (`Ws.stateAtRaise`: WSStream assigns its
+    -- state before the sends of accept / close and between the sends of a rejection)
+    if raised then (st2.setObj i (.ws (Ws.stateAtRaise m s s' (firstRaisedWs cfg (st.setObj i (.ws s')) evs))), outs, some .exception)
+    else (st2, outs, err)
   | _ => (st, [], none)
 
 /-! ### the reader side -/
